@@ -116,4 +116,20 @@ theorem source_single_pull_is_the_trait_default :
 
 end Surface
 
+section SurfaceConv
+open Orx.GenThms.Surface Orx.Gen
+
+/-- an iterator built through `From` / `Into` is the one built by `new`: the conversions add nothing (no eager completion, no
+second classification of the size hint) -/
+theorem source_conversions_are_the_constructors :
+    fnsOf "frombody" "ConIterOfSlice" = [["Self::new(slice)"]] ∧ fnsOf "frombody" "ConIterOfVec" = [["Self::new(vec)"]] ∧
+    fnsOf "frombody" "ConIterOfArray" = [["Self::new(array)"]] ∧ fnsOf "frombody" "ConIterOfRange" = [["Self::new(range)"]] ∧
+    fnsOf "frombody" "ConIterOfIter" = [["Self::new(iter)"]] ∧
+    fnsOf "frombody" "ConIterValues" = [["Self{con_iter}"]] ∧ fnsOf "frombody" "ConIterIdsAndValues" = [["Self{con_iter}"]] ∧
+    sameSet (implsOf "From") ["ConIterOfSlice", "ConIterOfVec", "ConIterOfArray", "ConIterOfRange", "ConIterOfIter", "ConIterValues",
+      "ConIterIdsAndValues"] = true :=
+  Orx.GenThms.Surface.the_conversions
+
+end SurfaceConv
+
 end Orx.Props.C01
